@@ -144,7 +144,10 @@ def reevaluate(program, form, line, config, values):
         if kind in ('in', 'ni_if', 'stop_if'):
             if k not in config:
                 return ('blocked', 'i', k)
-            x = int(config[k] or 0)
+            try:
+                x = int(config[k] or 0)
+            except ValueError:
+                return ('invalid', k)      # the real InputStore reports InvalidInput here: the line can have no value
             if kind == 'in':
                 total += x
             elif kind == 'ni_if' and x:
@@ -185,7 +188,11 @@ def closure(program, requested, config):
                     sched.add(k)
                     work.append((kf, kb))
             else:
-                x = int(config.get(k, 0) or 0)
+                try:
+                    x = int(config.get(k, 0) or 0)
+                except ValueError:
+                    sched.add(f'{f}.{l} (reads the invalid text of {k}: cannot be part of a solved run)')
+                    break
                 if kind == 'stop_if' and x:
                     break
                 if kind == 'ni_if' and x:
@@ -284,6 +291,33 @@ def c13(o):
     return None
 
 
+@check('C05')
+def c05(o):
+    """Same year, forms and input values => same verdict and same lines, whether a value came from the file or from a prompt,
+    and whatever the order in which forms were requested."""
+    if 'values' not in o or o.get('refuse_after') is not None or o.get('raise_after') is not None:
+        return None
+    if o.get('raised'):
+        return None
+    allv = dict(o['provided'])
+    if o['answers']:
+        allv.update({k: o['answers'][k] for k in o.get('given', [])})
+    variants = []
+    if o.get('given'):
+        variants.append(('all values supplied by the file', o['requested'], allv, None))
+    if len(o['requested']) > 1:
+        variants.append(('forms requested in reverse order', list(reversed(o['requested'])), o['provided'], o['answers']))
+    for what, req, prov, ans in variants:
+        o2 = run(o['program'], req, prov, ans)
+        if o2.get('raised') or o2.get('nonterminating'):
+            return f'{what}: the run ends with {o2.get("raised") or "no termination"} while the original run returned {o.get("result")}'
+        if ans is not None and set(o2.get('given', [])) != set(o.get('given', [])):
+            continue
+        if o2.get('result') != o.get('result') or o2.get('values') != o.get('values'):
+            return f'{what}: verdict {o2.get("result")} values {o2.get("values")} differ from verdict {o.get("result")} values {o.get("values")}'
+    return None
+
+
 @check('C20')
 def c20(o):
     """Whatever ends the solve (completion, refusal, an exception out of the prompt or a line), the configuration object that
@@ -366,6 +400,13 @@ def scenarios(seed=0, n_random=150):
             yield prog, requested, half, {k: v for k, v in full.items() if k not in half}, None
             yield prog, requested, half, full, 1
             yield prog, requested, half, None, None
+            if all_inputs:
+                # a provided text the validator rejects: the run must not succeed without the lines that read it
+                yield prog, requested, {**full, all_inputs[0]: 'not-a-number'}, None, None
+                yield prog, requested, {**full, all_inputs[-1]: 'not-a-number'}, None, None
+            blank = {k: '' for k in all_inputs}      # a blank answer is a valid answer (0 / empty text), not a refusal
+            yield prog, requested, {}, blank, None
+            yield prog, requested, half, blank, None
             for k in (1, 2, 3):
                 yield prog, requested, {}, full, ('raise', k)
                 yield prog, requested, half, full, ('raise', k)
@@ -384,7 +425,10 @@ def search(prop, seed=0, n_random=150):
                 o = run(prog, requested, provided, answers, refuse)
         except Exception as ex:
             continue
-        msg = chk(o)
+        try:
+            msg = chk(o)
+        except Exception:
+            continue
         if msg:
             return {'violated': msg, 'program': prog, 'requested': requested, 'provided': provided, 'answers': answers,
                     'refuse_after': refuse, 'result': o.get('result'), 'raised': o.get('raised'), 'scenarios_tried': n}
